@@ -295,18 +295,23 @@ Definition note_classes (c : libcase) (o : note_obs) : list N :=
   | None => [9%N]
   end.
 
-(* class "title depends on titles": the first heading of some note of the library contains a
-   regular note link, whose text is itself refreshed from a title *)
-Fixpoint has_refreshable (i : inline) : bool :=
-  let fix go (l : list inline) : bool := match l with [] => false | x :: r => has_refreshable x || go r end in
+(* class "title depends on titles" (F-TITLELINK): the first heading of some note of the library
+   contains a note link that is REWRITTEN on output - a regular link (its text is refreshed from a
+   title), or a bare wiki link whose url is not the form iwe writes (`.md` taken off, the path made
+   canonical: its text is the url) - so the title the cache holds (the heading as read) is not the
+   title of the formatted note *)
+Fixpoint has_refreshable (dir : string) (i : inline) : bool :=
+  let fix go (l : list inline) : bool := match l with [] => false | x :: r => has_refreshable dir x || go r end in
   match i with
   | Emph l | Strong l | Strike l => go l
   | Link url _ Regular _ => is_ref_url url
+  | Link url _ WikiLink _ =>
+      is_ref_url url && negb (String.eqb (to_rel_link_url (from_rel_link_url url dir) dir) url)
   | _ => false
   end.
 Definition title_has_link (n : note_in) : bool :=
   match ni_blocks n with
-  | Ok (DHeader _ _ l :: _) => existsb has_refreshable l
+  | Ok (DHeader _ _ l :: _) => existsb (has_refreshable (key_parent (key_name (ni_name n)))) l
   | _ => false
   end.
 
